@@ -427,6 +427,9 @@ class EvalMixin:
             # arithmetic on opaque values: result opaque, may raise TypeError
             if self.spec:
                 return SV(ValS, z3.Const(fresh_name('opq'), Val))
+            ext = self.find_external('binop<opaque>')
+            if ext is not None:
+                return ext(self, [SStr(type(op).__name__), a, b], {})
             raise Unsupported('arithmetic on opaque value')
         self.raise_('TypeError', 'unsupported operand type(s) for %s: %s and %s' % (
             type(op).__name__, a.shape, b.shape))
